@@ -307,7 +307,11 @@ impl A {
                 let _ = write!(s, " {}={:?}", q(&self.ns, &self.name), self.val.as_deref().unwrap_or(""));
             }
             K::Ns => {
-                let _ = write!(s, " xmlns:{}={:?}", self.name, self.ns);
+                if self.name.is_empty() {
+                    let _ = write!(s, " xmlns={:?}", self.ns);
+                } else {
+                    let _ = write!(s, " xmlns:{}={:?}", self.name, self.ns);
+                }
             }
         }
     }
@@ -511,4 +515,87 @@ pub fn kind_of(xot: &Xot, n: Node) -> K {
         Value::Attribute(_) => K::Attr,
         Value::Namespace(_) => K::Ns,
     }
+}
+
+// ---------------------------------------------------------------------------------
+// difference classes (used in failure signatures)
+
+fn char_name(c: Option<char>) -> String {
+    match c {
+        None => "end".into(),
+        Some(c) => format!("U+{:04X}", c as u32),
+    }
+}
+
+/// class of the first difference between two strings: "U+000D->U+000A", "U+0061->end", …
+pub fn str_diff_class(exp: &str, got: &str) -> String {
+    let mut e = exp.chars();
+    let mut g = got.chars();
+    loop {
+        let (a, b) = (e.next(), g.next());
+        if a != b {
+            return format!("{}->{}", char_name(a), char_name(b));
+        }
+        if a.is_none() {
+            return "same".into();
+        }
+    }
+}
+
+/// Class of the first difference between an expected and an observed tree (pre-order), ids ignored.
+/// Attribute lists are compared as given (sort first for set semantics).
+pub fn diff_class(exp: &A, got: &A) -> Option<String> {
+    if exp.k != got.k {
+        return Some(format!("kind:{}->{}", exp.k.name(), got.k.name()));
+    }
+    let k = exp.k.name();
+    if exp.ns != got.ns {
+        return Some(format!("{}-namespace:{:?}->{:?}", k, exp.ns, got.ns));
+    }
+    if exp.name != got.name {
+        return Some(format!("{}-name", k));
+    }
+    if exp.val != got.val {
+        return Some(match (&exp.val, &got.val) {
+            (Some(a), Some(b)) => format!("{}-value:{}", k, str_diff_class(a, b)),
+            (None, Some(_)) => format!("{}-value:none->some", k),
+            (Some(_), None) => format!("{}-value:some->none", k),
+            _ => unreachable!(),
+        });
+    }
+    if exp.nss.len() != got.nss.len() {
+        return Some(format!("decl-count:{}->{}", exp.nss.len(), got.nss.len()));
+    }
+    for (a, b) in exp.nss.iter().zip(got.nss.iter()) {
+        if a.name != b.name {
+            return Some("decl-prefix".into());
+        }
+        if a.ns != b.ns {
+            return Some(format!("decl-uri:{}", str_diff_class(&a.ns, &b.ns)));
+        }
+    }
+    if exp.attrs.len() != got.attrs.len() {
+        return Some(format!("attr-count:{}->{}", exp.attrs.len(), got.attrs.len()));
+    }
+    for (a, b) in exp.attrs.iter().zip(got.attrs.iter()) {
+        if let Some(d) = diff_class(a, b) {
+            return Some(d);
+        }
+    }
+    if exp.ch.len() != got.ch.len() {
+        // name the first position where kinds diverge
+        for (a, b) in exp.ch.iter().zip(got.ch.iter()) {
+            if a.k != b.k {
+                return Some(format!("children:{}->{}", a.k.name(), b.k.name()));
+            }
+        }
+        let extra = if exp.ch.len() > got.ch.len() { format!("missing-{}", exp.ch[got.ch.len()].k.name()) } else { format!("extra-{}", got.ch[exp.ch.len()].k.name()) };
+        return Some(format!("child-count:{}", extra));
+    }
+    for (a, b) in exp.ch.iter().zip(got.ch.iter()) {
+        if let Some(d) = diff_class(a, b) {
+            return Some(d);
+        }
+    }
+    None
 }
